@@ -4,6 +4,7 @@ From Coq Require Import List ZArith Bool.
 From V Require Import Gen.Params Lib.Hex
      AmpToken.AmpModel AmpToken.AmpProofs AmpToken.TokenModel AmpToken.TokenProofs.
 From V Require SentPH.Model SentPH.ProofsScalars AmpToken.AmpFull.
+From V Require Import AmpToken.AmpReplay.
 From V Require Import AmpToken.StatelessModel AmpToken.StatelessProofs AmpToken.WireModel AmpToken.WireProofs.
 Import ListNotations.
 Open Scope Z_scope.
@@ -63,7 +64,10 @@ Print Assumptions C14_validated_stays.
 
 (** The loss-detection timer: cancelled whenever it is recomputed while limited; and in
     histories of arrivals, gated sends and expiries, an unblocked server with Initial or
-    Handshake packets outstanding always has it armed (no handshake deadlock). *)
+    Handshake packets outstanding always has it armed.
+    NOTE (audit): [timed_op] excludes [Other], the slice model's stand-in for ACK processing (an arbitrary oracle on the
+    timer sub-state, so nothing can be said after it): this theorem covers histories WITHOUT ACKs.  With ACKs, loss
+    timers and space drops the statement is C06_timer_armed on the full handler model (coq/Props/C06.v). *)
 Theorem C14_timer_cancelled_when_limited : forall s,
   limited s = true -> alarm (tm (setTimer s)) = 0.
 Proof. exact timer_cancelled_when_limited. Qed.
@@ -134,6 +138,18 @@ Theorem C14_close_gated : forall c size ops,
 Proof. exact close_gated. Qed.
 Print Assumptions C14_close_gated.
 
+(** The hypothesis [Close false] of the two theorems above is needed: the close decision trusts
+    Conn.handshakeComplete; with that flag set while the handler's own flag still says "unvalidated" the
+    CONNECTION_CLOSE is written whatever the counters say (5500 sent against a bound of 3700 here).  In the code
+    the flag is set while the client's Finished is processed, shortly before ReceivedPacket(Handshake). *)
+Example C14_close_hypothesis_needed :
+  let '(c, last) := crun_g (cinit false 200000000, 0)
+        [ SphOp (Recv 1200 1); SphOp (TrySend 2 [(amp_EncInitial, 1200, true)]); SphOp (TrySend 2 [(amp_EncHandshake, 1200, true)]);
+          SphOp (TrySend 2 [(amp_EncHandshake, 3000, true)]); Close true 100 ] in
+  validated (sph c) = false /\ wireSent c = 5500 /\ 3 * wireRcvd c + last = 3700.
+Proof. exact close_with_handshake_flag_unbounded. Qed.
+Print Assumptions C14_close_hypothesis_needed.
+
 (** Regression: the witness of the former finding ampconn/close-ungated (2x1200 B received,
     6x1280 B sent, application close with a 106 B CONNECTION_CLOSE, 37 B datagrams afterwards)
     now ends at 7680 bytes; under the limit the close is written once and retransmitted for the
@@ -150,8 +166,41 @@ Example C14_close_regression :
 Proof. exact close_example_run. Qed.
 Print Assumptions C14_close_regression.
 
+(** Buffered undecryptable packets.  A datagram is credited when it arrives; packets of it whose keys are
+    missing are buffered and handled AGAIN when read keys appear.  [arrived] counts the bytes that really arrived
+    in datagrams.  As repaired by fixes/C14-undecryptable-replay-not-credited-again.patch ([qrun false]): everything
+    on the wire <= 3 x arrived + last gated datagram, for every history of datagrams (with any buffered parts),
+    key events (any subset staying undecryptable), and connection ops incl. close. *)
+Theorem C14_amplification_bound_replay : forall validated0 pto ops,
+  Forall wf_qop ops ->
+  let q := qrun false (qinit validated0 pto) ops in
+  validated (sph (fst (qcl q))) = false ->
+  wireSent (fst (qcl q)) <= 3 * arrived q + snd (qcl q).
+Proof. exact amplification_bound_replay. Qed.
+Print Assumptions C14_amplification_bound_replay.
+
+(** The behaviour before that repair ([qrun true]: the replay credits the packet's bytes again) violates the
+    property: witness = a 1200 B Initial, a 1200 B datagram of two buffered Handshake-looking packets, a key
+    event, ten send attempts: 10800 bytes sent for 2400 bytes arrived.  (Former finding
+    amplification/replay-credited-again; the monitor replays this shape on the code.) *)
+Theorem C14_replay_credited_again_refuted :
+  exists ops, Forall wf_qop ops /\
+    let q := qrun true (qinit false 200000000) ops in
+    validated (sph (fst (qcl q))) = false /\
+    3 * arrived q + snd (qcl q) < wireSent (fst (qcl q)).
+Proof. exact replay_credited_again_refuted. Qed.
+Print Assumptions C14_replay_credited_again_refuted.
+
+Example C14_replay_regression :
+  let q := qrun false (qinit false 200000000) replay_witness in
+  wireSent (fst (qcl q)) = 7200 /\ arrived q = 2400 /\ bytesReceived (sph (fst (qcl q))) = 2400 /\
+  (let q' := qrun true (qinit false 200000000) replay_witness in
+   wireSent (fst (qcl q')) = 10800 /\ arrived q' = 2400 /\ bytesReceived (sph (fst (qcl q'))) = 3600).
+Proof. exact replay_witness_repaired. Qed.
+Print Assumptions C14_replay_regression.
+
 (** The property at the wire.  [wire_ok] is the predicate an observer between client and server checks
-    (every datagram towards an unvalidated address starts at or under 3x what arrived); it is what the
+    (a datagram towards an unvalidated address packed after a SendMode check starts strictly under 3x what arrived, an ungated one — CONNECTION_CLOSE, its retransmission, a Retry — at or under it); it is what the
     `ampconn` unit replays on the traces of real connections.  Every wire trace of every history of the
     connection-level model (gated sends, close, retransmissions of the close) satisfies it. *)
 Theorem C14_wire_trace_ok : forall validated0 pto ops,
@@ -160,13 +209,20 @@ Proof. exact wire_trace_ok. Qed.
 Print Assumptions C14_wire_trace_ok.
 
 Example C14_wire_ok_nonvacuous :
-  wire_ok (WS 0 0 false) [WRecv 1200 false; WRecv 1200 false; WSend 1280; WSend 1280; WSend 1280; WSend 1280; WSend 1280; WSend 1280; WSend 106] = false /\
+  wire_ok (WS 0 0 false) [WRecv 1200 false; WRecv 1200 false; WSend 1280; WSend 1280; WSend 1280; WSend 1280; WSend 1280; WSend 1280; WSendU 106] = false /\
   wire_ok (WS 0 0 false) [WRecv 1200 false; WRecv 1200 false; WSend 1280; WSend 1280; WSend 1280; WSend 1280; WSend 1280; WSend 1280; WRecv 1200 true; WSend 1280] = true /\
   ctrace_ev (cinit false 200000000) close_example_ops =
     [WRecv 1200 false; WRecv 1200 false; WSend 1280; WSend 1280; WSend 1280; WSend 1280; WSend 1280; WSend 1280;
      WRecv 37 false; WRecv 37 false; WRecv 37 false; WRecv 37 false].
 Proof. exact wire_ok_rejects. Qed.
 Print Assumptions C14_wire_ok_nonvacuous.
+
+Example C14_wire_ok_strict :
+  wire_ok (WS 0 0 false) [WRecv 100 false; WSend 300; WSend 5000] = false /\
+  wire_ok (WS 0 0 false) [WRecv 100 false; WSend 300; WSendU 50] = true /\
+  wire_ok (WS 0 0 false) [WSend 5000] = false.
+Proof. exact wire_ok_strict. Qed.
+Print Assumptions C14_wire_ok_strict.
 
 (** Non-vacuity: a well-formed history that reaches the limit, is blocked, is unblocked by
     a 40-byte datagram, overshoots by one datagram, and is finally validated. *)
@@ -265,7 +321,12 @@ Print Assumptions C14_issued_token_validates.
 (** * (c) Forgery: truncated, bit-flipped, foreign-key tokens are absent or invalid *)
 
 (** Under ideal ciphertext integrity, a byte string that decodes to a token is, byte for
-    byte, nonce ++ seal of a plaintext the key holder sealed ... *)
+    byte, nonce ++ seal of a plaintext the key holder sealed ...
+    NOTE (audit): the three forgery theorems are short consequences of the assumption record [protector_ideal]
+    (int_ctxt, key_sep) plus DecodeToken's framing (length check, nonce split); that a given truncation or bit flip
+    of an issued token is not itself a sealed token is NOT derived here — it is part of what int_ctxt idealises
+    (AES-GCM integrity) and is carried on the code by the token unit's monitors (every single-bit flip and every
+    truncation of sample tokens, foreign key). *)
 Theorem C14_token_forgery :
   forall (K : Type) (prot_seal : K -> list Z -> list Z -> list Z)
          (prot_open : K -> list Z -> list Z -> option (list Z))
